@@ -8,8 +8,8 @@ import common, api, tlc, pipe
 CLAUSE_PROPS = {
     "xerbla": {"C15", "C07", "C01"}, "threads": {"C04", "C17"}, "A unchanged": {"C01", "C08", "C11"},
     "B padding": {"C01"}, "perm_c bijection": {"C10", "C09"}, "perm_r bijection": {"C09"},
-    "factor structure": {"C09"}, "reconstruction bound": {"C02", "C01"}, "multiplier bound": {"C02"},
-    "residual bound": {"C01"}, "B unchanged on singular": {"C06"}, "A scaling relation": {"C11", "C07"},
+    "factor structure": {"C09"}, "reconstruction bound": {"C02", "C01", "C08"}, "multiplier bound": {"C02"},
+    "residual bound": {"C01", "C08"}, "B unchanged on singular": {"C06"}, "A scaling relation": {"C11", "C07"},
     "B scaling relation": {"C11", "C07"}, "query info>n": {"C14"}, "query estimate>0": {"C14"},
     "query X untouched": {"C14"}, "query retains memory": {"C17"}, "query clobbers existing factors / permutations": {"C14", "C08", "C18", "C17"}, "FACTORED modified A": {"C08"},
     "FACTORED modified perms": {"C08"}, "FACTORED modified L/U": {"C08"}, "FACTORED retains memory": {"C17"},
@@ -17,6 +17,11 @@ CLAUSE_PROPS = {
     "X untouched on singular": {"C06"}, "info=n+1 iff rcond<eps": {"C12"},
     "backward error of X (original system)": {"C07", "C08", "C01"}, "berr truthful": {"C13"}, "ferr dominates": {"C13"},
     "rcond sandwich": {"C12"}, "pivot growth": {"C12"}, "diagonal pivots (perm_r = perm_c)": {"C16"},
+    # the computational routines called directly (sessions)
+    "AC is the column-permuted view of A": {"C10", "C08"}, "etree postordered / ordering changed by a postorder only": {"C10", "C08"},
+    "init touched perm_r / options": {"C08", "C18"}, "init retains memory": {"C17"}, "guard zones of the workspace": {"C14"},
+    "pivot reuse not honoured": {"C08"}, "solve info": {"C08", "C01", "C07"}, "solve modified A / L / U / permutations": {"C08"},
+    "solve retains memory": {"C17"}, "session release does not return the session's blocks": {"C17"},
 }
 
 
@@ -67,6 +72,12 @@ def atoms(h):
             out.add((st, "gssv"))
         elif c["call"] == "mat" and c.get("sing"):
             out.add((st, "singular"))
+        elif c["call"] == "sinit":
+            out.add((st, "sinit", bool(c.get("refact")), bool(c.get("usepr")), c.get("lw")))
+        elif c["call"] in ("ssolve", "scon"):
+            out.add((st, c["call"], c.get("trans") or c.get("norm")))
+        elif c["call"] in ("sdropac", "sfinal", "sfactor"):
+            out.add((st, c["call"]))
     return out
 
 
@@ -112,7 +123,7 @@ def covering_sample(hs, count, rng, precs=("d", "s", "z", "c"), scales=(None,), 
             pick_sc = max(rng.sample(list(scales), len(scales)), key=lambda sc: gain(cand[sc], p))
             keys |= cand[pick_sc]
         if shapes != (None,):
-            cand = {sh: {(x[0], x[1], "rhs", sh) for x in a if x[1] in ("gssv", "gssvx")} for sh in shapes}
+            cand = {sh: {(x[0], x[1], "rhs", sh) for x in a if x[1] in ("gssv", "gssvx", "ssolve")} for sh in shapes}
             pick_sh = max(rng.sample(list(shapes), len(shapes)), key=lambda sh: gain(cand[sh], p))
             keys |= cand[pick_sh]
         for x in keys:
@@ -122,14 +133,14 @@ def covering_sample(hs, count, rng, precs=("d", "s", "z", "c"), scales=(None,), 
 
 
 def run_histories(ck, alphabet, depth, count, rng, precs=("d",), threads=(1, 2, 4), nmax=24, pert=None,
-                  validate_pipe=True, variant="verif", hist_filter=None, script_kw=None, extra_judge=None, enum_timeout=600, simulate=None):
-    wd = os.path.join(ck.dir, "api")
+                  validate_pipe=True, variant="verif", hist_filter=None, script_kw=None, extra_judge=None, enum_timeout=600, simulate=None, tag=""):
+    wd = os.path.join(ck.dir, "api" + tag)
     os.makedirs(wd, exist_ok=True)
     # depth >= 5: the complete enumeration is millions of histories (tens of GB once parsed): a large random sample of TLC behaviours instead
-    hs, r = api.enumerate_histories(wd, depth, alphabet, name=ck.pid, timeout=enum_timeout, simulate=simulate or (4000 if depth >= 5 else None))
+    hs, r = api.enumerate_histories(wd, depth, alphabet, name=ck.pid + tag, timeout=enum_timeout, simulate=simulate or (4000 if depth >= 5 and not tag else None))
     ck.model(r["distinct"], r["generated"])
     hs = [h for h in hs if h and h[0]["call"] == "mat" and (hist_filter is None or hist_filter(h))]
-    ck.notes["histories_enumerated"] = len(hs)
+    ck.notes["histories_enumerated" + tag] = len(hs)
     if not hs:
         ck.violation("enum", "TLC enumerated no history: %s" % r["errors"][:2])
         return
@@ -217,3 +228,16 @@ def run_histories(ck, alphabet, depth, count, rng, precs=("d",), threads=(1, 2, 
             else:
                 ck.violation(key + ":pipe", "factorization inside the history rejected by SluPipeTrace: " + pipe.explain(pr, f),
                              {"script": txt, "trace": f})
+
+
+SESSION_ALPHABET = ["mat", "onemat", "vals", "ses", "destroy", "trans", "user", "scon"]
+
+
+def run_sessions(ck, depth, count, rng, precs=("d",), threads=(1, 2, 4), nmax=24, pert=None, hist_filter=None, simulate=None, extra=()):
+    """histories over the computational routines called directly, as EXAMPLE/pdrepeat.c does: p?gstrf_init (first / refact / refact+usepr,
+    system memory or the caller's workspace), p?gstrf, ?gstrs (N/T/C), ?gscon (1/I), Destroy_CompCol_Permuted, pxgstrf_finalize, the
+    destroy routines, new values in between; one matrix per history; enumerated exhaustively by TLC to the given depth"""
+    def flt(h):
+        return any(c["call"] == "sfactor" for c in h) and (hist_filter is None or hist_filter(h))
+    run_histories(ck, SESSION_ALPHABET + list(extra), depth, count, rng, precs=precs, threads=threads, nmax=nmax, pert=pert, hist_filter=flt,
+                  script_kw={"scale_for_equil": False}, simulate=simulate, tag="_ses")
